@@ -118,6 +118,7 @@ def run(tier, seed):
     import core_impl as ci
     rep = Report("C02", tier, seed)
     proof_ok = common.proof_stage(rep, "C02")
+    ci.CHECK_PURITY = True      # every operation must leave its arguments as they were
     for cname in ("monoidal", "rigid"):
         cls = ci.Cls(cname)
         rng = random.Random(seed * 11 + (1 if cname == "rigid" else 0))
@@ -165,6 +166,7 @@ def run(tier, seed):
                           {"class": cname, "law": name, "lhs": lhs, "rhs": rhs, "impl_lhs": il, "impl_rhs": ir,
                            "replay": "cd /verif/harness && PYTHONPATH=/repo /venv/bin/python -B -c \"import core_impl as ci; "
                                      "c=ci.Cls('%s'); print(ci.interp2(c, %r) == ci.interp2(c, %r))\"" % (cname, lhs, rhs)})
+    reuse_and_refusal_stream(rep, ci, random.Random(seed + 202), 150 if tier == "quick" else 2500)
     common.cross_check_extraction(rep, "sums", ["DV.Common.Base", "DV.Core.SumProg"], "run_sexp2", progs,
                                   random.Random(seed + 99), n=60 if tier == "quick" else 600)
     base.settle(rep, "C02", proof_ok, "C02")
@@ -180,6 +182,88 @@ def run(tier, seed):
         checker_cmd="make -C coq Props/C02.vo  (coqc 8.16.1, Print Assumptions parsed)")
 
 
+def reuse_and_refusal_stream(rep, ci, rng, count):
+    """Oracle-only stream on the real objects.  (a) Values are values: after `s + h`, `h + s`,
+    `s >> k`, `s @ k`, `s[::-1]`, `sum(...)` the operands read as before, and the same objects used
+    again give the same results (bilinearity instances built from REUSED operands).  (b) The
+    refusal side of composition: `f >> Id(z)` and `Id(z) >> f` with the wrong z raise AxiomError,
+    so that (f >> Id(z)) >> g and f >> (Id(z) >> g) are refused together."""
+    from discopy import monoidal, rigid, cat
+    bad = 0
+
+    def snapshot(x):
+        return (repr(list(x.terms)), repr(x.dom), repr(x.cod))
+
+    def fail(what, payload):
+        nonlocal bad
+        bad += 1
+        rep.count("oracle:reuse-refusal:FAIL")
+        if bad <= 4:
+            rep.violation(what, payload)
+    for k in range(count):
+        mod = monoidal if k % 2 == 0 else rigid
+        Ty, Box, Id = mod.Ty, mod.Box, mod.Id
+        names = ["x", "y", "z", "w"]
+
+        def ty(lo, hi):
+            return Ty(*[rng.choice(names) for _ in range(rng.randint(lo, hi))])
+        a, b, c = ty(0, 2), ty(0, 2), ty(0, 2)
+        f, g, h = Box("f", a, b), Box("g", a, b) >> Id(b), Box("h", a, b)
+        kk = Box("k", b, c)
+        rep.count("stream:reuse-refusal")
+        try:
+            s = f + g
+            snap = snapshot(s)
+            r1 = s + h
+            if snapshot(s) != snap:
+                fail("`s + h` changed the sum s itself", {"class": mod.__name__, "s": repr(s), "h": repr(h)})
+                continue
+            r2 = s + h
+            if r1 != r2 or [repr(t) for t in r1.terms] != [repr(t) for t in (f, g, h)]:
+                fail("`s + h` evaluated twice on the same objects gives different sums, or not the terms of s then h",
+                     {"class": mod.__name__, "first": repr(r1), "second": repr(r2)})
+                continue
+            lhs = (s >> kk) + (h >> kk)
+            rhs = (s + h) >> kk
+            if lhs != rhs or snapshot(s) != snap:
+                fail("bilinearity on reused operands: (s >> k) + (h >> k) != (s + h) >> k", {
+                    "class": mod.__name__, "lhs": repr(lhs), "rhs": repr(rhs)})
+                continue
+            zero = monoidal.Sum([], a, b)
+            z1 = zero + f
+            if len(zero.terms) != 0 or len(z1.terms) != 1:
+                fail("the empty sum is not a unit that can be reused: after `zero + f` it has %d term(s)" % len(zero.terms),
+                     {"class": mod.__name__})
+                continue
+            d1 = s[::-1]
+            if snapshot(s) != snap or d1[::-1] != s:
+                fail("dagger of a sum changed the sum or is not involutive", {"class": mod.__name__})
+                continue
+            # (b) refusals
+            wrong = ty(0, 2)
+            if list(wrong.objects) != list(b.objects):
+                for name, thunk in (("f >> Id(z)", lambda: f >> Id(wrong)), ("Id(z) >> k", lambda: Id(wrong) >> kk),
+                                    ("(f >> Id(z)) >> k", lambda: (f >> Id(wrong)) >> kk)):
+                    try:
+                        r = thunk()
+                    except cat.AxiomError:
+                        continue
+                    except Exception as exc:   # noqa
+                        fail("%s with cod(f) = %r, z = %r raised %s instead of AxiomError" % (
+                            name, b, wrong, type(exc).__name__), {"class": mod.__name__})
+                        break
+                    fail("%s with cod(f) = %r and z = %r is accepted (returns %r)" % (name, b, wrong, r),
+                         {"class": mod.__name__, "replay": "f = Box('f', %r, %r); f >> Id(%r)" % (a, b, wrong)})
+                    break
+                else:
+                    rep.count("oracle:reuse-refusal:pass")
+                continue
+        except Exception as exc:   # noqa
+            fail("sum / refusal stream raised %s: %s" % (type(exc).__name__, exc), {"class": mod.__name__})
+            continue
+        rep.count("oracle:reuse-refusal:pass")
+
+
 def law_holds(ci, cls, lhs, rhs):
     """True / False, None when BOTH sides are refused (the instance is not composable), or a string
     when exactly one side is refused: the two sides of a law are defined together."""
@@ -190,6 +274,8 @@ def law_holds(ci, cls, lhs, rhs):
         except Exception as exc:   # noqa
             if type(exc).__name__ == "CaseTimeout":
                 return None
+            if type(exc).__name__ == "PurityError":
+                return "an operation changed its own argument: %s" % exc
             out.append((False, exc))
     (ok_a, a), (ok_b, b) = out
     if not ok_a and not ok_b:
